@@ -110,8 +110,15 @@ def build_session(rng, tmp, nops, metrics):
                 cfg["min_k"] = 1
             iyv = iYv1 if group % 3 == 1 else iYv
             extra = {"sup": (), "semi": (s.pool[iXu],), "knn": (s.pool[iXv], s.pool[iyv]), "unsup": ()}[kind]
+            same_objects = kind == "knn" and group % 4 == 3
+            if same_objects:
+                # validation on the training arrays themselves: one twin is handed the very same objects twice, the other equal
+                # copies - results depend on argument values, not on which objects carry them
+                extra = (s.pool[Xi], s.pool[iY])
             key = [Xi, [H.content_id(e) for e in extra]]
             for twin in range(2):
+                if same_objects and twin == 1:
+                    extra = (s.pool[Xi].copy(), s.pool[iY].copy())
                 o = s.new_model(kind, group, **cfg)
                 if twin == 1 and rng.random() < 0.5:
                     # "for all call histories": the second object has a past (fitted and used on unrelated, easy data)
